@@ -91,6 +91,16 @@ pub struct CeremonyTrace {
     /// may share one encoding) — the pair comes from the family of near-collision spellings of a leaf
     #[serde(default)]
     pub canon_pair: Option<(String, String)>,
+    /// (depth, variant): two JSON values nested that deep which differ in one place — behind, or at the
+    /// bottom of, the nesting — are canonicalized and compared (built on the fly: a replay file cannot hold
+    /// values nested deeper than its own parser goes)
+    #[serde(default)]
+    pub canon_nest: Option<(usize, u8)>,
+    /// a layout built through the typed API whose key table is re-keyed by hand (variant 0: one key listed
+    /// under a foreign id instead of its own; 1: listed under both): another value than the layout that was
+    /// signed, so the signatures made over the one must not verify over the other
+    #[serde(default)]
+    pub typed_twin: Option<u8>,
 }
 
 /// The same key material declared with another scheme (None if the library refuses to build it).
@@ -278,6 +288,33 @@ pub fn finish(t: &CeremonyTrace, p: &Prepared) -> CeremonyOutcome {
         fired: p.fired.clone(),
         wire_stats: (0, 0),
     };
+    if let (Some(variant), BodySpec::Layout(ls)) = (t.typed_twin, &t.body) {
+        // values built in memory, never through the parser
+        if let Some(a) = crate::typed::layout(ls, &t.keys) {
+            let mut b = a.clone();
+            if let Some((own_id, key)) = a.keys.iter().min_by_key(|(k, _)| serde_json::to_string(k).unwrap_or_default()).map(|(k, v)| (k.clone(), v.clone())) {
+                let foreign: in_toto::crypto::KeyId = "f0".repeat(32).parse().expect("64 characters");
+                if variant % 2 == 0 {
+                    b.keys.remove(&own_id);
+                }
+                b.keys.insert(foreign, key);
+                let signers: Vec<_> = t.signers.iter().map(|k| keys::key(t.keys[*k])).collect();
+                let privs: Vec<&PrivateKey> = signers.iter().map(|k| &k.private).collect();
+                if let Ok(signed_a) = Metablock::new(MetadataWrapper::Layout(a.clone()), &privs) {
+                    let twin = Metablock { signatures: signed_a.signatures.clone(), metadata: MetadataWrapper::Layout(b.clone()) };
+                    out.parsed = true;
+                    out.typed_equal_to_original = Some(a == b);
+                    for sk in &signers {
+                        out.results.push(match twin.verify(1, [&sk.public]) {
+                            Ok(_) => Ok(true),
+                            Err(e) => Err(exec::err_class(&e)),
+                        });
+                    }
+                }
+            }
+        }
+        return out;
+    }
     let mb = match &p.mb {
         Some(m) => m,
         None => return out,
@@ -307,6 +344,25 @@ pub fn finish(t: &CeremonyTrace, p: &Prepared) -> CeremonyOutcome {
             if let (Ok(ca), Ok(cb)) = (Json::canonicalize(&json!(a)), Json::canonicalize(&json!(b))) {
                 if ca == cb {
                     out.canon_collision = Some(format!("{:?} and {:?} both canonicalize to {}", a, b, String::from_utf8_lossy(&ca).chars().take(120).collect::<String>()));
+                }
+            }
+        }
+    }
+    if let Some((depth, variant)) = t.canon_nest {
+        let (a, b) = nested_pair(depth, variant);
+        if let (Ok(ca), Ok(cb)) = (Json::canonicalize(&a), Json::canonicalize(&b)) {
+            if ca == cb {
+                out.canon_collision = Some(format!("two values nested {depth} deep that differ (variant {variant}) share the {}-byte encoding {}…", ca.len(), String::from_utf8_lossy(&ca).chars().take(60).collect::<String>()));
+            }
+        }
+        // (values this deep are taken apart iteratively: dropping them recursively could exhaust the stack)
+        for v in [a, b] {
+            let mut stack = vec![v];
+            while let Some(x) = stack.pop() {
+                match x {
+                    Value::Array(xs) => stack.extend(xs),
+                    Value::Object(m) => stack.extend(m.into_iter().map(|(_, y)| y)),
+                    _ => {}
                 }
             }
         }
@@ -433,7 +489,7 @@ pub fn judge_ceremony(t: &CeremonyTrace, o: &CeremonyOutcome) -> Vec<Finding> {
         f.push(Finding {
             prop: "C05".into(),
             clause: "distinct-values-same-canonical-bytes".into(),
-            detail: if t.canon_pair.is_some() { format!("two different strings share one canonical encoding: {c}") } else { format!("edit {:?}: the edited signed part is another JSON value than the original, both canonicalize to {c}", t.ops) },
+            detail: if t.canon_nest.is_some() { format!("no two distinct JSON values may share an encoding: {c}") } else if t.canon_pair.is_some() { format!("two different strings share one canonical encoding: {c}") } else { format!("edit {:?}: the edited signed part is another JSON value than the original, both canonicalize to {c}", t.ops) },
         });
     }
     if o.unsignable.is_some() || !o.parsed {
@@ -510,7 +566,11 @@ pub fn judge_ceremony(t: &CeremonyTrace, o: &CeremonyOutcome) -> Vec<Finding> {
                 f.push(Finding {
                     prop: "C05".into(),
                     clause: "edited-content-still-verifies".into(),
-                    detail: format!("edit {:?}: parsed metadata differs from what was signed, yet verify(1, signer) = {:?}", t.ops, o.results),
+                    detail: if let Some(v) = t.typed_twin {
+                        format!("a layout built through the typed API and its twin whose key table lists one key under a foreign id (variant {v}) are unequal values, yet the signatures made over the one verify over the other: verify(1, signer) = {:?}", o.results)
+                    } else {
+                        format!("edit {:?}: parsed metadata differs from what was signed, yet verify(1, signer) = {:?}", t.ops, o.results)
+                    },
                 });
             }
         }
@@ -799,6 +859,8 @@ fn base_trace(seed: u64, tier: Tier, mode: Mode) -> (CeremonyTrace, Rng) {
         mem_sigdup: vec![],
         same_thread: gen::same_thread_block(seed),
         canon_pair: None,
+        canon_nest: None,
+        typed_twin: None,
     };
     (t, r)
 }
@@ -1069,6 +1131,26 @@ fn alternates(s: &str) -> Vec<&'static str> {
 }
 
 /// The property's near-collision edits for one string.
+/// Two different JSON values nested `depth` deep. Variant 0: an object whose member "a" is the deep value
+/// and whose member "z", written after it, differs; 1: nested arrays that differ in the innermost element;
+/// 2: nested objects that differ in the innermost member; 3: an array whose first element is the deep value
+/// and whose second element differs.
+pub fn nested_pair(depth: usize, variant: u8) -> (Value, Value) {
+    let deep = |leaf: Value, objects: bool| -> Value {
+        let mut v = leaf;
+        for _ in 0..depth {
+            v = if objects { json!({ "k": v }) } else { Value::Array(vec![v]) };
+        }
+        v
+    };
+    match variant % 4 {
+        0 => (json!({"a": deep(json!(0), false), "z": 1}), json!({"a": deep(json!(0), false), "z": 2})),
+        1 => (deep(json!(0), false), deep(json!(1), false)),
+        2 => (deep(json!("x"), true), deep(json!("y"), true)),
+        _ => (Value::Array(vec![deep(json!(0), true), json!(1)]), Value::Array(vec![deep(json!(0), true), json!(2)])),
+    }
+}
+
 pub fn near_collisions(s: &str) -> Vec<String> {
     let mut v = vec![];
     // spellings a path normaliser would not tell apart
@@ -1096,6 +1178,15 @@ pub fn near_collisions(s: &str) -> Vec<String> {
         v.push(s.replacen("\\n", "\n", 1));
     }
     v.push(format!("{s}\n"));
+    // line endings: LF <-> CRLF <-> CR
+    v.push(format!("{s}\r\n"));
+    v.push(format!("{s}\r"));
+    if s.contains("\r\n") {
+        v.push(s.replace("\r\n", "\n"));
+    } else if s.contains('\n') {
+        v.push(s.replace('\n', "\r\n"));
+        v.push(s.replace('\n', "\r"));
+    }
     v.push(format!("{s}\\n"));
     v.push(format!("{s}\\"));
     v.push(format!("{s}\""));
@@ -1180,6 +1271,15 @@ fn c05_big(tier: Tier, seed: u64, index: u64, rec: &mut RunRecord) {
         exec_prepared(&tt, &prepared, rec, seed, index, "C05", Some(&genuine));
     }
     rec.probe("document with a collection of 255 .. 8197 members, edited at the extremes of its order");
+    // and values nested deep (around 128, where parsers and writers like to draw a line)
+    for depth in [64usize, 127, 128, 129, 130, 200, 513] {
+        let mut tt = t.clone();
+        tt.ops.clear();
+        tt.canon_nest = Some((depth, r.below(4) as u8));
+        tt.labels = vec!["CANON-NEST".into()];
+        exec_prepared(&tt, &prepared, rec, seed, index, "C05", None);
+    }
+    rec.probe("values nested 64 .. 513 deep compared in canonical form");
 }
 
 pub fn run_c05(tier: Tier, seed: u64, index: u64, rec: &mut RunRecord) {
@@ -1205,6 +1305,15 @@ pub fn run_c05(tier: Tier, seed: u64, index: u64, rec: &mut RunRecord) {
             fold(&genuine, &o, f, rec, seed, index, "C05");
         } else {
             fold(&genuine, &o, vec![], rec, seed, index, "C05");
+        }
+    }
+    if matches!(t.body, BodySpec::Layout(_)) {
+        for variant in 0..2u8 {
+            let mut tt = t.clone();
+            tt.ops.clear();
+            tt.typed_twin = Some(variant);
+            tt.labels = vec!["TYPED-KEY-TABLE-TWIN".into()];
+            exec_prepared(&tt, &prepared, rec, seed, index, "C05", None);
         }
     }
     let mut ls = vec![];
